@@ -174,6 +174,7 @@ func init() {
 		e.frozenMap = 0
 		return nil
 	}
+	verifAPI["verifShared"] = func(e *Exec, args []Value, st string) Value { return nil }
 	verifAPI["verifClass"] = func(e *Exec, args []Value, st string) Value {
 		e.class = argStr(args[0])
 		return nil
